@@ -799,6 +799,34 @@ func runC09(p *load.Program, r *core.Report) {
 				}
 			} else {
 				nFalse++
+				ok := false
+				for _, c := range cmps {
+					if len(c.leEdges) > 0 && edgesDominate(c.leEdges, ret) {
+						ok = true
+					}
+				}
+				if !ok {
+					probs = append(probs, "'not exceeded' is returned at "+p.Pos(ret.Pos())+" without being dominated by len(restarts) <= intensity: one restart more than the limit is let through")
+				}
+			}
+		})
+		// comparisons of the count with something computed from the limit
+		eachInstr(f, func(in ssa.Instruction) {
+			b, ok := in.(*ssa.BinOp)
+			if !ok {
+				return
+			}
+			switch b.Op {
+			case token.LSS, token.LEQ, token.GTR, token.GEQ, token.EQL, token.NEQ:
+			default:
+				return
+			}
+			derived := func(v ssa.Value) bool {
+				ar, ok := v.(*ssa.BinOp)
+				return ok && (ar.Op == token.ADD || ar.Op == token.SUB) && (ar.X == ssa.Value(intensity) || ar.Y == ssa.Value(intensity))
+			}
+			if (isLenList(b.X) && derived(b.Y)) || (isLenList(b.Y) && derived(b.X)) {
+				probs = append(probs, "the restart count is compared with intensity±k at "+p.Pos(b.Pos())+" instead of the limit itself")
 			}
 		})
 		for _, c := range cmps {
